@@ -6,8 +6,18 @@
    target_shift / shift_atoms = translate every atom (or the point) by a vector,
    frac_not_half v Bi = no fractional coordinate of v is exactly half-way between two integers. *)
 From GM Require Import Proofs.RTac Model.Pbc Proofs.PbcRound Proofs.PbcLin Proofs.PbcR.
+From GM Require Import Gen.KernelsGen Proofs.KernelsGenEq.
 Import ListNotations.
 Local Open Scope R_scope.
+
+(* The tie by translation: Residue.distance_to as generated at this run from the CURRENT source text of
+   gaddlemaps/components/_residue.py (Gen/KernelsGen.v, harness/pytrans.py; np.linalg.inv and np.round keep
+   their hand-written models minv / vround) is the model's pbc_dist applied to the separation of the two
+   centres - for every Scalar instance. *)
+Theorem C19_model_is_source : forall (T : Type) (H : Scalar T) (residue c : V3 T) (box : option (M3 T)) (inv : bool),
+  distance_to_gen residue box inv c = pbc_dist (vsub residue c) box inv.
+Proof. exact (@distance_to_gen_eq). Qed.
+Print Assumptions C19_model_is_source.
 
 (* orthorhombic box: the result is the length of a periodic image of the separation and no
    periodic image (over ALL integer triples) is shorter *)
